@@ -181,9 +181,41 @@ def run(A, R: Report, thorough: bool):
     sc = fc.lookup('subcache')
     st = A.sym.func_term(sc, ('inst', jc))
     ok = st[0] == 'call' and st[1] == 'apply' or 'pathjoin' in str(st)
-    sub_ok = any(x[0] == 'pathjoin' and x[1] == ('attr', ('self',), 'directory') for x in dag_nodes(st))
-    R.check(sub_ok, 'R14.4', 'FileCache.subcache', key_of('subdir'), 'sub-cache lives in a sub-directory of the parent', 'sub-cache does not use its own directory under the parent', witness=[pretty(st)], where=where(sc))
+    dparam = [p_ for p_ in sc.params if p_ != 'self']
+    sub_ok = bool(dparam) and any(x[0] == 'pathjoin' and x[1] == ('attr', ('self',), 'directory') and x[2] == ('p', dparam[0]) for x in dag_nodes(st))
+    R.check(sub_ok, 'R14.4', 'FileCache.subcache', key_of('subdir'), 'sub-cache lives in <parent directory>/<the given name>', 'the sub-cache directory is not <parent directory>/<the given name> unchanged: differently named sub-caches can share a directory (and entries)', witness=[pretty(st)], where=where(sc))
     imc = A.cls('InMemoryCache')
+    # ---- R14.6 a (forced) computation replaces the entry and is what the call returns
+    R.rule('R14.6', 'InMemoryCache.get_or_compute stores the computed value by item assignment under the key (overwriting an existing entry) and returns that entry', floor=1)
+    fgm = imc.methods.get('get_or_compute')
+    R.require(fgm is not None, 'anchor: InMemoryCache.get_or_compute missing')
+    keyp, compp = fgm.params[1], fgm.params[2]
+    compc = [n for n in inl(A, fgm) if isinstance(n, ast.Call) and isinstance(n.func, ast.Name) and n.func.id == compp]
+    R.require(compc, 'anchor: computer() call missing in InMemoryCache.get_or_compute')
+    for c in compc:
+        par = getattr(c, '_parent', None)
+        stored_by_assignment = False
+        weak = None
+        holder = None
+        if isinstance(par, ast.Assign) and len(par.targets) == 1:
+            tgt = par.targets[0]
+            if isinstance(tgt, ast.Subscript) and src(tgt.slice) == keyp:
+                stored_by_assignment = True
+            elif isinstance(tgt, ast.Name):
+                holder = tgt.id
+                stored_by_assignment = any(isinstance(n, ast.Assign) and isinstance(n.targets[0], ast.Subscript) and src(n.targets[0].slice) == keyp and src(n.value) == holder for n in inl(A, fgm))
+        elif isinstance(par, ast.Call) and isinstance(par.func, ast.Attribute) and par.func.attr in ('setdefault',):
+            weak = 'setdefault keeps an existing entry: with force=True the recomputed value is neither stored nor returned'
+        if holder and not stored_by_assignment:
+            for n in inl(A, fgm):
+                if isinstance(n, ast.Call) and isinstance(n.func, ast.Attribute) and n.func.attr == 'setdefault' and any(src(a_) == holder for a_ in n.args):
+                    weak = 'setdefault keeps an existing entry: with force=True the recomputed value is neither stored nor returned'
+        if stored_by_assignment:
+            R.ok('R14.6', 'InMemoryCache.get_or_compute', 'entry[key] = computer()', where=where(fgm, c))
+        elif weak:
+            R.violation('R14.6', 'InMemoryCache.get_or_compute', key_of('weak-store', weak[:30]), weak, where=where(fgm, c))
+        else:
+            R.undecided('R14.6', 'InMemoryCache.get_or_compute', 'how the computed value is stored is not recognised', where=where(fgm, c))
     isc = imc.lookup('subcache')
     text = src(isc.node)
     R.check('get_ident()' in text and 'name' in text and 'InMemoryCache()' in text, 'R14.4', 'InMemoryCache.subcache', key_of('mem-subcache'), 'separate object per name and thread',
